@@ -21,6 +21,7 @@ MODELS = {
     'fermi_hubbard':  ((4,), True),
     'rand0':          ((2, 3), False),
     'randq':          ((2, 3), True),
+    'randqz':         ((2, 3), True),
     'rand0s':         ((2, 3), False),
     'randqs':         ((2, 3), True),
 }
@@ -76,7 +77,7 @@ def build_hamiltonian(name, L, d, rng):
         return ptn.bose_hubbard_mpo(d, L, _nz(rng), _nz(rng), _nz(rng))
     if name == 'fermi_hubbard':
         return ptn.fermi_hubbard_mpo(L, _nz(rng), _nz(rng), _nz(rng))
-    if name in ('rand0', 'randq', 'rand0s', 'randqs'):
+    if name in ('rand0', 'randq', 'rand0s', 'randqs', 'randqz'):
         # random Hermitian MPO X + X^dagger; spectral norm rescaled to the range of the built-in models
         # ('...s' = stiff variant: ||H|| of a few hundred, see the note on Lanczos orthogonality in r_C08)
         stiff = name.endswith('s')
@@ -90,7 +91,7 @@ def build_hamiltonian(name, L, d, rng):
         for i in range(1, L):
             D = int(rng.integers(1, 4))
             # keep the charge 0 on every bond so that X has a non-vanishing charge-conserving part
-            q = [0] + [int(rng.choice(diffs)) for _ in range(D - 1)]
+            q = [0] + [int(rng.choice(diffs)) if name != 'randqz' else 0 for _ in range(D - 1)]
             qD.append(q)
         qD.append([0])
         X = ptn.MPO(qd, qD, fill='random', rng=rng)
@@ -99,6 +100,11 @@ def build_hamiltonian(name, L, d, rng):
         nH = float(np.linalg.norm(oracle.mpo_dense(H.A), 2))
         if nH > 0:
             H.A[0] = H.A[0] * (target / nH)
+        if name == 'randqz':
+            # all bond charges are zero: the operator conserves the charge without any label of its own.  It forgets its physical
+            # labels (every entry of an unlabelled MPO is admissible); states keep the labels under `state_qd`
+            H.state_qd = [int(x) for x in H.qd]
+            H.zero_qnumbers()
         return H
     raise ValueError(name)
 
